@@ -56,7 +56,7 @@ class LessLexer:
 
     def t_css_filter(self, t):
         (r'\[[^\]]*\]'
-         '|(not|lang|nth-[a-z\-]+)\(.+\)'
+         '|(not|lang|nth-[a-z\-]+)\((?:[^()]|\([^()]*\))+\)'
          '|and[ \t]\([^><=\{]+\)')
         return t
 
@@ -156,7 +156,7 @@ class LessLexer:
 
     def t_iselector_css_filter(self, t):
         (r'\[[^\]]*\]'
-         '|(not|lang|nth-[a-z\-]+)\(.+\)'
+         '|(not|lang|nth-[a-z\-]+)\((?:[^()]|\([^()]*\))+\)'
          '|and[ \t]\([^><\{]+\)')
         # TODO/FIXME(saschpe): Only needs to be redifined in state 'iselector' so that
         # the following css_class doesn't catch everything.
